@@ -28,8 +28,9 @@ U("pool_new_free", ["C18", "C01"], "h_new_free", ["C18/pool.c"], ["object_pool.c
   bounds={"objects allocated<=": 3, "unwind": 5}, cbmc_flags=["--unwind", "5", "--unwinding-assertions", "--memory-leak-check"],
   functions=["pool_new", "pool_free", "pool_add_slab", "stack_new", "stack_free"], callees={"all": "body"}, native={"repo": ["object_pool.c", "stack.c"]}, assumptions=[NOFAIL])
 _TP_NATIVE = {"repo": ["object_pool.c", "stack.c", "char.c"]}
-U("token_pool_init", ["C18"], "h_tp_init", ["C18/token_pool.c"], ["object_pool.c", "stack.c", "char.c"], enforce="token_pool_init", lib=(),
-  callees={"pool_new": "body", "pool_add_slab": "body", "stack_new/stack_push": "body"}, native=_TP_NATIVE, small=["-DSTACK_CAP_MAX=4"], assumptions=[NOFAIL, "token.c is verified as textually included in the spec TU (its statics are not linkable)"])
+U("token_pool_init", ["C18"], "h_tp_init", ["C18/token_pool.c"], ["object_pool.c", "stack.c", "char.c"], enforce="token_pool_init", replace=["pool_drain", "pool_free"], lib=(),
+  callees={"pool_new": "body", "pool_add_slab": "body", "stack_new/stack_push": "body",
+           "pool_drain, pool_free": "contracts (not called by the code as it stands: an init that released slabs would have to fit them into token_pool_init's frame, which assigns the pool pointer and the counter only)"}, native=_TP_NATIVE, small=["-DSTACK_CAP_MAX=4"], assumptions=[NOFAIL, "token.c is verified as textually included in the spec TU (its statics are not linkable)"])
 U("token_pool_drain", ["C18"], "h_tp_drain", ["C18/token_pool.c"], ["object_pool.c", "stack.c", "char.c"], enforce="token_pool_drain", replace=["pool_drain"], lib=(),
   callees={"pool_drain": "contract (proved bounded in pool_drain_K3)"}, native=_TP_NATIVE, small=["-DSTACK_CAP_MAX=4"])
 U("token_pool_free", ["C18"], "h_tp_free", ["C18/token_pool.c"], ["object_pool.c", "stack.c", "char.c"], enforce="token_pool_free", replace=["pool_free"], lib=(),
